@@ -391,12 +391,23 @@ theorem headStage_ok {R B : Nat} {tok : IS → Out LoopRes} (ht : StageOk R tok 
 /-- the per-instance reader of either pass: for both values of "marked deleted" a stage with constant `K` -/
 def InstOk (R : Nat) (inst : Bool → IS → Out LoopRes) (K B : Nat) : Prop := ∀ d, StageOk R (inst d) K B
 
+/-- an instance reader as the instance loop needs it: it returns, never un-reads, and its steps are paid by the loop's own
+potential `dataPot D R` up to a constant `K` -/
+def InstOkD (D R : Nat) (inst : Bool → IS → Out LoopRes) (K B : Nat) : Prop :=
+  ∀ d s, s.m ≤ B → ∃ r, inst d s = .ok r ∧ r.s.m ≤ s.m ∧ r.steps + dataPot D R r.s ≤ dataPot D R s + K
+
+theorem InstOk.toD {R K B : Nat} {inst : Bool → IS → Out LoopRes} (h : InstOk R inst K B) (D : Nat) : InstOkD D R inst K B := by
+  intro d s hB
+  obtain ⟨r, a, b, cc⟩ := h d s hB
+  have hDr := mul_mono' D b
+  exact ⟨r, a, b, by simp only [dataPot, bigPot]; omega⟩
+
 /-- the instance loop of `ReadData1` / `ReadData2`: terminates with fuel `m + 1`, never un-reads, at most `32 + D` steps per
 consumed byte (all nesting levels), and the cut-off: it never counts more than `maxErr + 1` failed instances, and stops
 as soon as it has -/
-theorem dataLoop_ok {R B K D maxErr : Nat} {recover : IS → Byte → Nat → Out (IS × Byte × Bool × Nat)}
+theorem dataLoop_okD {R B K D maxErr : Nat} {recover : IS → Byte → Nat → Out (IS × Byte × Bool × Nat)}
     {inst : Bool → IS → Out LoopRes} {tok : IS → Out LoopRes} (wsMode pass2 : Bool)
-    (hrec : RecoverOk R recover B) (hinst : InstOk R inst K B) (ht : StageOk R tok 1 B) (hD : K + 7 ≤ D) :
+    (hrec : RecoverOk R recover B) (hinst : InstOkD D R inst K B) (ht : StageOk R tok 1 B) (hD : K + 7 ≤ D) :
     ∀ (fuel : Nat) (s : IS) (e : Bool) (c : Byte) (del : Bool) (nc cnt steps : Nat), s.m + 1 ≤ fuel → s.m ≤ B → nc ≤ maxErr →
       ∃ r, dataLoop recover inst tok wsMode pass2 maxErr fuel s e c del nc cnt steps = .ok r ∧ r.s.m ≤ s.m ∧
         r.steps + dataPot D R r.s ≤ steps + dataPot D R s + (K + 8) ∧
@@ -448,11 +459,9 @@ theorem dataLoop_ok {R B K D maxErr : Nat} {recover : IS → Byte → Nat → Ou
         · intro hh'; exfalso; omega
       | false =>
         simp only []
-        obtain ⟨r, a, b, cc⟩ := hinst (wsMode && del1) s2 (by omega)
+        obtain ⟨r, a, b, hqr⟩ := hinst (wsMode && del1) s2 (by omega)
         rw [a]
         simp only []
-        have hDr := mul_mono' D b
-        have hqr : r.steps + dataPot D R r.s ≤ dataPot D R s2 + K := by simp only [dataPot, bigPot]; omega
         have hprog := hpr2 rfl
         have hbud : st + r.steps + dataPot D R r.s + 1 + (K + 8) ≤ steps + dataPot D R s + (K + 8) ∨ r.s.m = 0 := by
           rcases hprog with h1 | h1
@@ -528,6 +537,15 @@ theorem dataLoop_ok {R B K D maxErr : Nat} {recover : IS → Byte → Nat → Ou
       constructor
       · intro h; cases h
       · intro h; exfalso; omega
+
+theorem dataLoop_ok {R B K D maxErr : Nat} {recover : IS → Byte → Nat → Out (IS × Byte × Bool × Nat)}
+    {inst : Bool → IS → Out LoopRes} {tok : IS → Out LoopRes} (wsMode pass2 : Bool)
+    (hrec : RecoverOk R recover B) (hinst : InstOk R inst K B) (ht : StageOk R tok 1 B) (hD : K + 7 ≤ D) :
+    ∀ (fuel : Nat) (s : IS) (e : Bool) (c : Byte) (del : Bool) (nc cnt steps : Nat), s.m + 1 ≤ fuel → s.m ≤ B → nc ≤ maxErr →
+      ∃ r, dataLoop recover inst tok wsMode pass2 maxErr fuel s e c del nc cnt steps = .ok r ∧ r.s.m ≤ s.m ∧
+        r.steps + dataPot D R r.s ≤ steps + dataPot D R s + (K + 8) ∧
+        nc ≤ r.notCreated ∧ r.notCreated ≤ maxErr + 1 ∧ (r.aborted = true ↔ r.notCreated = maxErr + 1) :=
+  dataLoop_okD wsMode pass2 hrec (hinst.toD D) ht hD
 
 theorem dataPot_le {D R : Nat} (s : IS) : dataPot D R s ≤ (32 + D) * s.m + R := by
   have := pot_le (R := R) s
